@@ -1283,9 +1283,21 @@ class Interp:
         for it in items:
             self.assign(g.target, it)
             if all(self.ctx.branch(self.truth(self.eval(c))) for c in g.ifs):
-                k = self.pyconst(self.force(self.eval(n.key)))
+                kv = self.force(self.eval(n.key))
+                k = self.pyconst(kv)
                 if k is MISSING:
-                    raise Unsupported("dict comprehension with symbolic key")
+                    # symbolic key: it replaces an earlier key it is equal to (case split), else it is a new entry
+                    if not hasattr(kv, "t"):
+                        raise Unsupported("dict comprehension with a key of kind %s" % kv.tag)
+                    k = kv
+                    for kk, _ in d.entries:
+                        if d._keq(kk, kv):
+                            k = kk
+                            break
+                        kkv = kk if isinstance(kk, Val) else self.const(kk)
+                        if kkv.tag == kv.tag and self.ctx.branch(self.eq(kv, kkv)):
+                            k = kk
+                            break
                 d = d.set(k, self.eval(n.value))
         self.frames[-1].env = saved
         ref = Ref(self.fresh_name("dict"))
